@@ -155,6 +155,20 @@ def run_cfg(ctx, p, cfg):
                 if x[0] == "call" and x[1] in getters:
                     getters[x[1]] = i
         pos = add_params(p, ro)
+        # each argument is exactly the logger's own getter (no conditional substitute)
+        exact = {"path": "config::runtime::Logger::name", "additive": "config::runtime::Logger::additive", "level": "config::runtime::Logger::level"}
+        for nm, g in exact.items():
+            a = deep_strip(args[pos[nm] - 1])
+            r.require(a[0] == "call" and a[1] == g and len(a[2]) == 1, "argument-is-exactly-the-getter:%s" % nm, fn=sn, site=site.at, detail="%s argument = %s" % (nm, show(a, 4)))
+        aa = strip(args[pos["appenders"] - 1])
+        chain = []
+        x = aa
+        while x[0] == "call" and x[2]:
+            chain.append(x[1])
+            x = strip(x[2][0])
+        ok_chain = aa[0] == "call" and chain[:1] == ["core::iter::traits::iterator::Iterator::collect"] and "config::runtime::Logger::appenders" in chain and not any(c.rsplit("::", 1)[-1] in ("filter", "skip", "take", "rev", "filter_map", "take_while", "skip_while") for c in chain)
+        r.require(ok_chain, "appenders-resolved-unconditionally", fn=sn, site=site.at, detail="appenders argument = %s" % show(aa, 5),
+                  fail_detail="the appender indices handed to add() are not simply logger.appenders() resolved through the map (%s): an attachment can be dropped for some loggers, and additive descendants lose it too" % show(aa, 5))
         r.require(getters["config::runtime::Logger::name"] == pos["path"] - 1 and getters["config::runtime::Logger::additive"] == pos["additive"] - 1 and getters["config::runtime::Logger::level"] == pos["level"] - 1 and getters["config::runtime::Logger::appenders"] == pos["appenders"] - 1,
                   "loop-passes-own-settings", fn=sn, site=site.at, detail="add(root, logger.name(), indices(logger.appenders()), logger.additive(), logger.level()): argument positions %s" % getters)
 
